@@ -276,7 +276,7 @@ def request_strings(tokens):
 
 
 def key_quotable(key):
-    """can the key be written as a quoted or triple-quoted string that fits a line?"""
+    """can the key be written as a quoted or triple-quoted string, followed by its colon, within the line limit?"""
     if not key:
         return True
     lines = []
@@ -292,13 +292,14 @@ def key_quotable(key):
 
     def has3(q):
         return any(s[j:j + 3] == [q, q, q] for j in range(len(s) - 2))
+    triple_ok = (s[-1] != 39 and not has3(39)) or (s[-1] != 34 and not has3(34))
     if len(lines) == 1:
-        if len(s) + 2 <= LINE and (39 not in s or 34 not in s):
+        if len(s) + 3 <= LINE and (39 not in s or 34 not in s):
             return True
-        return len(s) + 6 <= LINE and ((s[-1] != 39 and not has3(39)) or (s[-1] != 34 and not has3(34)))
-    if max(len(l) for l in lines) > LINE or len(lines[0]) + 3 > LINE or len(lines[-1]) + 3 > LINE:
+        return len(s) + 7 <= LINE and triple_ok
+    if max(len(l) for l in lines) > LINE or len(lines[0]) + 3 > LINE or len(lines[-1]) + 4 > LINE:
         return False
-    return (s[-1] != 39 and not has3(39)) or (s[-1] != 34 and not has3(34))
+    return triple_ok
 
 
 # ---------------------------------------------------------------------------------------------------------------------
